@@ -101,6 +101,15 @@ def _gen_core(rng, tier):
                     x = G.xrows(rows)
                     yield Case("roundtrip", [fmt, w, popts_for(w), "auto", x], True, "rt-%s-%s" % (fmt, w))
                     yield Case("write", [fmt, w, "auto", x], True, "write-%s" % fmt)
+    # 1b. the write-only format PAML (`reformat paml`): the writer model against the real writer, every boundary length
+    for L in G.WIDTH_LENGTHS:
+        for _ in range(reps):
+            n = rng.choice([1, 2, 3]) if L > 200 else None
+            x = G.xrows(G.rand_alignment(rng, ["fasta"], False, L=L, nrows=n))
+            yield Case("write", ["paml", "_", "auto", x], True, "write-paml")
+    for _ in range(30 if not thorough else 300):
+        rows = G.rand_alignment(rng, ["fasta"], False)
+        yield Case("write", ["paml", "_", rng.choice(["auto", "0", "1", "3"]), G.xrows(rows)], nontrivial_len(len(rows[0][1])), "write-paml")
     # 2. random alignments, random lengths, all formats
     N = 60 if not thorough else 600
     for fmt in G.FORMATS:
